@@ -55,6 +55,25 @@ def gen_T11():
          '_read: `self.eagains = 0` no longer follows `self.inbuffer += new_data`')
     hbody = [ast.unparse(b) for n in ast.walk(h) if isinstance(n, ast.If) for b in n.orelse]
     need('self.eagains += 1' in hbody, '_handleSocketError: the else branch no longer does `self.eagains += 1`: %r' % (hbody,))
+    # _read: the statements from recv() to the per-line loop, one by one (seeded change C11_8 put a length guard on the
+    # remainder between `lines.pop()` and the loop): nothing but accumulate / split / keep the last piece may happen there
+    rtry = [n for n in ast.walk(rd) if isinstance(n, ast.Try)
+            and any(isinstance(c, ast.Call) and ast.unparse(c.func) == 'self.conn.recv' for b in n.body for c in ast.walk(b))]
+    need(len(rtry) == 1, '_read: expected exactly one try containing self.conn.recv, got %d' % len(rtry))
+    rb = rtry[0].body
+    shape = [ast.unparse(b) if isinstance(b, (ast.Assign, ast.AugAssign, ast.Expr)) else type(b).__name__ for b in rb]
+    want = ['new_data = self.conn.recv(1024)', 'If', 'self.inbuffer += new_data', 'self.eagains = 0',
+            "lines = self.inbuffer.split(b'\\n')", 'self.inbuffer = lines.pop()', 'For']
+    need(shape == want, '_read: statements between recv() and the per-line loop changed: %r' % (shape,))
+    need(ast.unparse(rb[1].test) == 'not new_data' and not rb[1].orelse
+         and [ast.unparse(b) for b in rb[1].body] == ['self._handleSocketError(None)', 'return'],
+         '_read: the closed-socket test changed: %s' % ast.unparse(rb[1]))
+    need(ast.unparse(rb[6].target) == 'line' and ast.unparse(rb[6].iter) == 'lines' and not rb[6].orelse,
+         '_read: the per-line loop is no longer `for line in lines`')
+    inb = [ast.unparse(n) for n in ast.walk(rd) if isinstance(n, (ast.Assign, ast.AugAssign))
+           and any('self.inbuffer' == ast.unparse(t) for t in (n.targets if isinstance(n, ast.Assign) else [n.target]))]
+    need(inb == ['self.inbuffer += new_data', 'self.inbuffer = lines.pop()'],
+         '_read: self.inbuffer is assigned somewhere else: %r' % (inb,))
     # _read: the line separator of the split and the recv size
     r = find_def(t, '_read', 'SocketDriver')
     seps = [n.args[0].value for n in ast.walk(r)
